@@ -7,6 +7,8 @@ import (
 	"encoding/json"
 	"fmt"
 	mrand "math/rand"
+	"os"
+	"path/filepath"
 	"runtime/debug"
 	"strings"
 	"time"
@@ -24,6 +26,9 @@ func init() { register("C10", "exploration", runC10) }
 type c10Case struct {
 	Spec gen.MsgSpec `json:"spec"`
 	Date string      `json:"date"`
+	// Entry: how the rendering reaches the parser: "" EMLToMsgFromString | reader: EMLToMsgFromReader | file: the message
+	// is written with WriteToFile and parsed with EMLToMsgFromFile
+	Entry string `json:"entry,omitempty"`
 }
 
 type c10Part struct {
@@ -95,6 +100,11 @@ func genC10(r *mrand.Rand, id string) c10Case {
 	file := func() gen.FileSpec {
 		f := gen.FileSpec{Name: gen.Pick(r, c10FileNames), Enc: gen.Pick(r, []string{"", "", "base64"})}
 		f.Content = gen.Content(r, gen.Pick(r, []string{"ascii", "binary", "binary-nul", "b64-edge", "crlf-lines", "utf8", "empty"}))
+		if r.Intn(5) == 0 {
+			// a text file with the line ends of its platform, carried as it is (8bit): its octets are its content
+			f.Enc = "8bit"
+			f.Content = []byte(gen.Pick(r, []string{"unix line one\nline two\n\nlast line without a break", "mixed\r\nline ends\nin one file\n", "\nleading break\n"}))
+		}
 		if r.Intn(4) == 0 {
 			// a Content-ID of the caller's choosing, on embeds and on attachments alike
 			f.CID = gen.Pick(r, []string{"<cid-1@example.com>", "<image001>", "<a.b.c@verif>", "<report@example.com>"})
@@ -114,7 +124,7 @@ func genC10(r *mrand.Rand, id string) c10Case {
 		// a caller-defined boundary; some need quoting in the Content-Type parameter
 		s.Boundary = gen.Pick(r, []string{"----=_NextPart_000_0001", "next part 0001", "simple-boundary-1", "b(1)?=x:y", strings.Repeat("Z", 64)})
 	}
-	return c10Case{Spec: s, Date: "Tue, 03 Mar 2026 10:11:12 +0100"}
+	return c10Case{Spec: s, Date: "Tue, 03 Mar 2026 10:11:12 +0100", Entry: gen.Pick(r, []string{"", "", "reader", "file"})}
 }
 
 func c10Expected(c *c10Case) c10Model {
@@ -385,7 +395,25 @@ func runC10Case(r *ev.Run, c c10Case) {
 				perr = fmt.Errorf("panic: %v\n%s", p, debug.Stack())
 			}
 		}()
-		parsed, perr = mail.EMLToMsgFromString(b1.String())
+		switch c.Entry {
+		case "reader":
+			parsed, perr = mail.EMLToMsgFromReader(bytes.NewReader(b1.Bytes()))
+		case "file":
+			dir, err := os.MkdirTemp("", "verif-c10-")
+			if err != nil {
+				perr = fmt.Errorf("harness: %w", err)
+				return
+			}
+			defer os.RemoveAll(dir)
+			fn := filepath.Join(dir, "message.eml")
+			if err := os.WriteFile(fn, b1.Bytes(), 0o600); err != nil {
+				perr = fmt.Errorf("harness: %w", err)
+				return
+			}
+			parsed, perr = mail.EMLToMsgFromFile(fn)
+		default:
+			parsed, perr = mail.EMLToMsgFromString(b1.String())
+		}
 	}()
 	if perr != nil {
 		viol("parse-error:"+errClass(perr), "parsing the library's own rendering failed: "+ev.Trunc(perr.Error(), 300), ev.Q(b1.Bytes(), 1500))
@@ -427,7 +455,7 @@ func runC10Case(r *ev.Run, c c10Case) {
 
 func runC10(r *ev.Run, rep *ev.ReplayDoc) ev.Summary {
 	sum := ev.Summary{
-		Rule: "seeded messages within the parser's feature set (UTF-8 text/plain and text/html bodies and alternatives, 0-2 embeds, 0-2 attachments, QP/base64/8bit/7bit, subjects and display names needing RFC 2047, file names over printable Unicode incl. blanks, ';' and '=', caller-defined boundaries incl. ones that need quoting) are rendered, parsed with EMLToMsgFromString, and rendered again. Model M0 from the spec, M1 from the parsed Msg's getters, M2 from the re-rendered bytes via the harness reader; M1 == M0 and M2 == M0 with nothing added, re-rendered message without duplicated singleton fields, structural problems or file names whose charset label contradicts their octets. non-trivial = >=2 leaves; distinct by (shape, subject)",
+		Rule: "seeded messages within the parser's feature set (UTF-8 text/plain and text/html bodies and alternatives, 0-2 embeds, 0-2 attachments, QP/base64/8bit/7bit, subjects and display names needing RFC 2047, file names over printable Unicode incl. blanks, ';' and '=', caller-defined boundaries incl. ones that need quoting) are rendered, parsed with EMLToMsgFromString / EMLToMsgFromReader / EMLToMsgFromFile, and rendered again. Model M0 from the spec, M1 from the parsed Msg's getters, M2 from the re-rendered bytes via the harness reader; M1 == M0 and M2 == M0 with nothing added, re-rendered message without duplicated singleton fields, structural problems or file names whose charset label contradicts their octets. non-trivial = >=2 leaves; distinct by (shape, subject)",
 		Assumptions: []string{
 			"a case is only judged if the harness reader reads M0 back from the first rendering (C01's guarantee); header text compares after RFC 2047 decoding and blank-run collapsing; dates compare as instants",
 		},
